@@ -53,14 +53,16 @@ Lemma cm_send_facts pre v v' r T C ks p ms :
   HT T pre c /\ cn c FDead = 0 /\ cn c FPrim = p /\ c_lm c = lock_keys ms /\
   subset (c_lm c) (c_pwok c) = true /\ T < C /\ cn c FMinc <= C /\
   (negb (fb c FCalled) || fb c FCausal || (cn c FWm <? C)) = true /\
-  (mem p ks = false -> ((cn c FPcOk =? C) || async_kept c) = true).
+  (mem p ks = false -> ((cn c FPcOk =? C) || async_kept c) = true) /\
+  (negb (async_kept c) || (C =? cn c FMinc)) = true.
 Proof.
   intros [G A] St Hm. cbv zeta. cbn [vstep] in St. cbv zeta in St.
   destruct St as [Hd St]. apply fb_false in Hd.
   destruct (t_muts _ _ _ (A T) _ _ Hm) as (Hh & Hp & Hl).
-  apply fb_true in Hh. rewrite Hh in St. destruct St as (S1 & S2 & S3 & S4 & St).
+  apply fb_true in Hh. rewrite Hh in St. destruct St as (S1 & S2 & S3 & S3b & S4 & St).
   split; [exact (A T)|]. split; [exact Hd|]. split; [exact Hp|]. split; [exact Hl|].
   split; [exact S1|]. split; [exact S2|]. split; [exact S3|]. split; [exact S4|].
+  split; [| exact S3b].
   intros Em. rewrite Hp, Em in St. exact (proj1 St).
 Qed.
 
@@ -77,7 +79,7 @@ Theorem secondaries_after_primary_holds evs s0 : run evs = Some s0 -> secondarie
 Proof.
   intros R pre post r T C ks p ms E Hm Hnp.
   destruct (at_event _ _ _ _ _ R E) as (v & v' & Hh & St).
-  destruct (cm_send_facts _ _ _ _ _ _ _ _ _ Hh St Hm) as (HTc & _ & Hp & _ & _ & Hts & _ & _ & Hsec).
+  destruct (cm_send_facts _ _ _ _ _ _ _ _ _ Hh St Hm) as (HTc & _ & Hp & _ & _ & Hts & _ & _ & Hsec & _).
   assert (Em : mem p ks = false).
   { destruct (mem p ks) eqn:Em; [|reflexivity]. apply mem_In in Em. contradiction. }
   specialize (Hsec Em). apply orb_true_iff in Hsec. destruct Hsec as [Hs | Hs].
@@ -94,7 +96,7 @@ Proof.
   intros R. split.
   - intros pre post r T ks p ms E Hm.
     destruct (at_event _ _ _ _ _ R E) as (v & v' & [G A] & St).
-    cbn [vstep] in St. destruct St as [Hn _].
+    cbn [vstep] in St. destruct St as [Hn _]. apply andb_true_iff in Hn. destruct Hn as [Hn _].
     pose proof (A T) as HTc. destruct (t_muts _ _ _ HTc _ _ Hm) as (Hh & Hp & _).
     unfold neg_ok in Hn. apply andb_true_iff in Hn. destruct Hn as [H0 Hn]. apply N.eqb_eq in H0.
     split.
@@ -115,10 +117,10 @@ Proof.
   intros R pre post r T C ks E.
   destruct (at_event _ _ _ _ _ R E) as (v & v' & [G A] & St).
   cbn [vstep] in St. destruct St as [J _].
-  destruct J as [(Hc & p & Hi) | [(Hc & p & Hi) | [(ks' & Hi) | (p & ttl & m & secs & Hi & Hm & Hs)]]].
+  destruct J as [(Hc & p & Hi) | [(Hc & p & Hi) | [((ks' & Hi) & (p & ttl & m & secs & Hj)) | (p & ttl & m & secs & Hi & Hm & Hs)]]].
   - left. split; [exact Hc|]. exists p. exact (g_cts _ _ G _ Hi).
   - right. left. split; [exact Hc|]. exists p. exact (g_cts _ _ G _ Hi).
-  - right. right. left. exists ks'. exact (g_csl _ _ G _ Hi).
+  - right. right. left. split; [exists ks'; exact (g_csl _ _ G _ Hi) | exists p, ttl, m, secs; exact (g_cts _ _ G _ Hj)].
   - right. right. right. exists p, ttl, m, secs. split; [exact (g_cts _ _ G _ Hi)|]. split; [exact Hm|].
     intros k Hk. destruct (Hs k Hk) as (ks' & l & m' & I1 & I2 & I3).
     exists ks', l, m'. split; [exact (g_csl _ _ G _ I1)|]. split; assumption.
@@ -128,8 +130,8 @@ Theorem commit_ts_bounds_holds evs s0 : run evs = Some s0 -> commit_ts_bounds ev
 Proof.
   intros R pre post r T C ks p ms E Hm.
   destruct (at_event _ _ _ _ _ R E) as (v & v' & Hh & St).
-  destruct (cm_send_facts _ _ _ _ _ _ _ _ _ Hh St Hm) as (HTc & _ & _ & _ & _ & Hts & Hmin & Hwm & _).
-  split; [exact Hts|]. split.
+  destruct (cm_send_facts _ _ _ _ _ _ _ _ _ Hh St Hm) as (HTc & _ & _ & Hl & Hsub & Hts & Hmin & Hwm & _ & Hak).
+  split; [exact Hts|]. split; [| split].
   - intros r' ks' m o Hi. pose proof (t_minc _ _ _ HTc _ _ _ _ Hi). lia.
   - intros pre1 pre2 Hd Hno t Ht.
     destruct (t_call _ _ _ HTc _ _ _ Hd Hno) as (Hc & Hcz & Hw).
@@ -138,6 +140,24 @@ Proof.
       apply Hcz in Hz. discriminate. }
     apply fb_true in Hc. apply fb_false in Hcausal. rewrite Hc, Hcausal in Hwm. cbn [negb orb] in Hwm.
     apply N.ltb_lt in Hwm. specialize (Hw t Ht). lia.
+  - intros Hall Hno0. destruct Hh as [G A].
+    (* the primary is a locked mutation, so some prewrite reply, hence some prewrite request exists *)
+    pose proof (t_primlk _ _ _ HTc _ _ Hm) as Hpl. rewrite <- Hl in Hpl.
+    apply (subset_In _ _ Hsub) in Hpl. destruct (t_pwok _ _ _ HTc _ Hpl) as (r1 & ks1 & m1 & o1 & Hi1 & _).
+    destruct (g_pwdlv _ _ G _ _ _ _ (g_pwrep _ _ G _ _ _ _ Hi1)) as (p1 & a1 & o2 & m2 & f2 & secs2 & Hs1).
+    apply (g_sent _ _ G) in Hs1. destruct (Hall _ _ _ _ _ _ _ _ Hs1) as [-> ->].
+    assert (Hta : cn (vgetc v T) FTriedA <> 0) by (eapply t_trieda2; eauto).
+    assert (Hfb : cn (vgetc v T) FFb = 0).
+    { destruct (N.eq_dec (cn (vgetc v T) FFb) 0) as [Hz | Hz]; [exact Hz | exfalso].
+      destruct (t_fb _ _ _ HTc Hz) as [(r2 & p2 & ks2 & o3 & m3 & f3 & secs3 & Hi) | [(r2 & ks2 & o3 & Hi) | (r2 & p2 & ks2 & a3 & m3 & f3 & secs3 & Hi)]].
+      - destruct (Hall _ _ _ _ _ _ _ _ Hi) as [Hx _]. discriminate.
+      - exact (Hno0 _ _ _ Hi).
+      - destruct (Hall _ _ _ _ _ _ _ _ Hi) as [_ Hx]. discriminate. }
+    assert (Hk : async_kept (vgetc v T) = true).
+    { unfold async_kept. apply fb_true in Hta. apply fb_false in Hfb. rewrite Hta, Hfb. reflexivity. }
+    rewrite Hk in Hak. cbn [negb orb] in Hak. apply N.eqb_eq in Hak.
+    assert (Hnz : cn (vgetc v T) FMinc <> 0) by lia.
+    destruct (t_minc2 _ _ _ HTc Hnz) as (r2 & ks2 & o3 & Hi). rewrite <- Hak in Hi. exists r2, ks2, o3. exact Hi.
 Qed.
 
 Theorem expire_only_expired_holds evs s0 : run evs = Some s0 -> expire_only_expired evs.
@@ -168,6 +188,7 @@ Proof.
     destruct (t_1pc _ _ _ HTc Hg) as (r & ks & m & Hi). exists r, ks, m, (cn (vgetc v T) F1pcTs). split; assumption.
   - right. right. apply andb_true_iff in Hg. destruct Hg as [Hg _].
     apply andb_true_iff in Hg. destruct Hg as [Hg _].
+    apply andb_true_iff in Hg. destruct Hg as [Hg _].
     unfold async_kept in Hg. apply andb_true_iff in Hg. destruct Hg as [Hg _].
     apply fb_true in Hg. exact (t_trieda _ _ _ HTc Hg).
 Qed.
@@ -191,11 +212,77 @@ Proof.
     + pose proof (t_pws _ _ _ HTc). pose proof (t_pwr _ _ _ HTc). lia.
 Qed.
 
+Theorem told_err_only_if_occ_holds evs s0 : run evs = Some s0 -> told_err_only_if_occ evs.
+Proof.
+  intros R pre post T p ms E Hm Hcp.
+  destruct (at_event _ _ _ _ _ R E) as (v & v' & [G A] & St).
+  cbn [vstep] in St. destruct St as [Hg _]. cbn [told_guard] in Hg.
+  pose proof (A T) as HTc. destruct (t_muts _ _ _ HTc _ _ Hm) as (Hh & Hp & Hl).
+  apply andb_true_iff in Hg. destruct Hg as [Hg _]. apply andb_true_iff in Hg. destruct Hg as [_ Hg].
+  assert (Hcpw : commit_point_pw (vgetc v T) = true).
+  { unfold commit_point_pw. apply orb_true_iff.
+    destruct Hcp as (r & p' & ks & a & o & m & f & secs & Hi & [-> | ->]); [left | right]; apply fb_true.
+    - eapply t_trieda2; eauto.
+    - eapply t_tried12; eauto. }
+  rewrite Hcpw in Hg. cbn [negb orb] in Hg. unfold err_ok in Hg.
+  apply fb_true in Hh. rewrite Hh in Hg. cbn [negb orb] in Hg.
+  apply existsb_exists in Hg. destruct Hg as (k & Hk & Heq). apply N.eqb_eq in Heq.
+  exists k. split; [rewrite lock_keys_of_agrees, <- Hl; exact Hk|].
+  rewrite (t_ksent _ _ _ HTc), (t_kneg _ _ _ HTc) in Heq. lia.
+Qed.
+
+(* for duplicate-free key lists, counting with multiplicity = counting the events that mention k *)
+Lemma occ_counts pre v T k :
+  HG pre v -> (forall r p' ks a o m f secs, In (EPwSend r T p' ks a o m f secs) pre -> NoDup ks) ->
+  sum_of (pw_send_occ T k) pre = count_if (is_pw_send_k T k) pre /\
+  sum_of (pw_negreply_occ T k) pre = count_if (is_pw_negreply_k T k) pre.
+Proof.
+  intros G Hnd. split; apply sum_of_count; intros e He; destruct e; try reflexivity.
+  - cbn [pw_send_occ is_pw_send_k]. destruct (s =? T) eqn:Es; [|reflexivity].
+    apply N.eqb_eq in Es. subst s. cbn [andb]. apply occ_nodup. eapply Hnd. exact He.
+  - cbn [pw_negreply_occ is_pw_negreply_k]. destruct (s =? T) eqn:Es; [|reflexivity].
+    apply N.eqb_eq in Es. subst s. cbn [andb].
+    destruct (is_pwneg res); [| rewrite andb_false_r; reflexivity]. rewrite andb_true_r.
+    apply occ_nodup.
+    destruct (g_pwdlv _ _ G _ _ _ _ (g_pwrep _ _ G _ _ _ _ He)) as (p1 & a1 & o1 & m1 & f1 & secs1 & Hs).
+    apply (g_sent _ _ G) in Hs. eapply Hnd. exact Hs.
+Qed.
+
+Theorem told_err_only_if_holds evs s0 : run evs = Some s0 -> told_err_only_if evs.
+Proof.
+  intros R pre post T p ms E Hm.
+  destruct (at_event _ _ _ _ _ R E) as (v & v' & [G A] & St).
+  cbn [vstep] in St. destruct St as [Hg _]. cbn [told_guard] in Hg.
+  pose proof (A T) as HTc. destruct (t_muts _ _ _ HTc _ _ Hm) as (Hh & Hp & _).
+  apply andb_true_iff in Hg. destruct Hg as [Hg _]. apply andb_true_iff in Hg. destruct Hg as [Hn _].
+  unfold neg_ok in Hn. apply andb_true_iff in Hn. destruct Hn as [H0 Hn]. apply N.eqb_eq in H0.
+  split; [| split].
+  - intros r' c' ks' Hi. pose proof (t_pcok0 _ _ _ HTc Hh H0 _ _ _ Hi) as Hx. rewrite Hp in Hx. exact Hx.
+  - apply orb_true_iff in Hn. destruct Hn as [Hn | Hn].
+    + left. apply N.eqb_eq in Hn.
+      pose proof (t_sent _ _ _ HTc) as Hs. pose proof (t_neg _ _ _ HTc Hh) as Hng.
+      apply N.eqb_neq in Hh. rewrite Hh, Hp in Hs. rewrite Hp in Hng. lia.
+    + right. apply fb_true in Hn. pose proof (t_rb _ _ _ HTc Hn) as Hx. rewrite Hp in Hx. exact Hx.
+  - intros Hcp Hnd.
+    destruct (told_err_only_if_occ_holds _ _ R _ _ _ _ _ E Hm Hcp) as (k & Hk & Heq).
+    exists k. split; [exact Hk|].
+    destruct (occ_counts pre v T k G Hnd) as [Q1 Q2]. rewrite <- Q1, <- Q2. exact Heq.
+Qed.
+
+Theorem csl_only_listed_holds evs s0 : run evs = Some s0 -> csl_only_listed evs.
+Proof.
+  intros R pre post r T ks E.
+  destruct (at_event _ _ _ _ _ R E) as (v & v' & [G A] & St).
+  cbn [vstep] in St. destruct St as [Hg _].
+  apply async_cts_In in Hg. destruct Hg as (p & ttl & m & secs & Hi & Hs).
+  exists p, ttl, m, secs. split; [exact (g_cts _ _ G _ Hi) | exact Hs].
+Qed.
+
 Theorem accept_sound : forall evs s, run evs = Some s ->
   commit_after_all_prewrites evs /\ secondaries_after_primary evs /\
   no_rollback_after_possible_commit evs /\ resolve_uses_reported_status evs /\
   commit_ts_bounds evs /\ expire_only_expired evs /\ told_ok_after_commit evs /\
-  undetermined_only_if evs.
+  undetermined_only_if evs /\ told_err_only_if evs /\ csl_only_listed evs.
 Proof.
   intros evs s R.
   split; [eapply commit_after_all_prewrites_holds; eauto|].
@@ -205,7 +292,9 @@ Proof.
   split; [eapply commit_ts_bounds_holds; eauto|].
   split; [eapply expire_only_expired_holds; eauto|].
   split; [eapply told_ok_after_commit_holds; eauto|].
-  eapply undetermined_only_if_holds; eauto.
+  split; [eapply undetermined_only_if_holds; eauto|].
+  split; [eapply told_err_only_if_holds; eauto|].
+  eapply csl_only_listed_holds; eauto.
 Qed.
 
 (* if every commit-point request sent before [told] has its reply before [told], the answer is
@@ -231,20 +320,60 @@ Example accepted_2pc :
                   ETold 1 TOk; ECmSend 9 1 2 [8] ] = Some s.
 Proof. eexists. vm_compute. reflexivity. Qed.
 
-(* ---- the two first-draft statements that System.v does NOT imply, with accepted witnesses ---- *)
+(* non-vacuity of the async-commit parts (5: commit ts = max min-commit ts, 10: csl_send only for listed
+   secondaries, 4: async resolve route): transaction 1 on keys 7 (primary), 8, observed by resolver 4 *)
+Example accepted_async :
+  exists s, run [ ETso 1; EBegin 9 1; ECommitCall 1 false; EMutations 1 7 [(7, OpPut); (8, OpPut)];
+                  EPwSend 9 1 7 [7] true false 0 0 [8]; EPwSend 9 1 7 [8] true false 0 0 [];
+                  EPwDeliver 9 1 [7] (PwOk 5 0); EPwDeliver 9 1 [8] (PwOk 6 0);
+                  EPwReply 9 1 [7] (PwOk 5 0); EPwReply 9 1 [8] (PwOk 6 0); ETold 1 TOk;
+                  ECtsSend 4 1 7 0 0 false false false; ECtsDeliver 4 1 7 (StLocked 3 5 true [8]);
+                  ECtsReply 4 1 7 (StLocked 3 5 true [8]);
+                  ECslSend 4 1 [8]; ECslDeliver 4 1 [8] (CslLocks [(8, 6)]); ECslReply 4 1 [8] (CslLocks [(8, 6)]);
+                  ERsSend 4 1 6 []; ECmSend 9 1 6 [7] ] = Some s.
+Proof. eexists. vm_compute. reflexivity. Qed.
+(* ... and of 9(c): an async prewrite answered with a region error, then a definite error *)
+Example accepted_async_err :
+  exists s, run [ EMutations 1 7 [(7, OpPut)]; EPwSend 9 1 7 [7] true false 0 0 [];
+                  EPwDeliver 9 1 [7] PwRegion; EPwReply 9 1 [7] PwRegion; ETold 1 TErr ] = Some s.
+Proof. eexists. vm_compute. reflexivity. Qed.
+
+(* ---- first-draft statements that System.v does NOT imply, with accepted witnesses ---- *)
+(* 9(c) without the duplicate-free premise: System counts once per OCCURRENCE of a key in a request *)
+Definition told_err_draft (evs : list event) : Prop :=
+  forall pre post s p ms, evs = pre ++ ETold s TErr :: post -> In (EMutations s p ms) pre ->
+    (exists r p' ks a o m f secs, In (EPwSend r s p' ks a o m f secs) pre /\ (a = true \/ o = true)) ->
+    exists k, In k (lock_keys_of ms) /\
+      count_if (is_pw_send_k s k) pre = count_if (is_pw_negreply_k s k) pre.
+Definition cex_told_err_pre : list event :=
+  [ EMutations 1 7 [(7, OpPut)]; EPwSend 9 1 7 [7; 7] true false 0 0 []; EPwSend 9 1 7 [7] true false 0 0 [];
+    EPwDeliver 9 1 [7] PwRegion; EPwDeliver 9 1 [7] PwRegion; EPwDeliver 9 1 [7] PwRegion;
+    EPwReply 9 1 [7] PwRegion; EPwReply 9 1 [7] PwRegion; EPwReply 9 1 [7] PwRegion ].
+Theorem told_err_draft_refuted :
+  (exists s, run (cex_told_err_pre ++ [ETold 1 TErr]) = Some s) /\ ~ told_err_draft (cex_told_err_pre ++ [ETold 1 TErr]).
+Proof.
+  split; [eexists; vm_compute; reflexivity|].
+  intros D.
+  destruct (D cex_told_err_pre [] 1 7 [(7, OpPut)] eq_refl (or_introl eq_refl)) as (k & Hk & Heq).
+  - exists 9, 7, [7], true, false, 0, 0, []. split; [right; right; left; reflexivity | left; reflexivity].
+  - destruct Hk as [<- | []]. vm_compute in Heq. discriminate Heq.
+Qed.
+
 Definition resolve_draft (evs : list event) : Prop :=
   forall pre post r s c ks, evs = pre ++ ERsSend r s c ks :: post ->
     (c <> 0 /\ exists p, In (ECtsReply r s p (StCommitted c)) pre) \/
     (c = 0 /\ exists p, In (ECtsReply r s p StRolledBack) pre) \/
     (exists ks' st, In (ECslReply r s ks' st) pre).
 Definition cex_resolve : list event :=
-  [ ECtsSend 9 1 7 0 0 false false false; ECtsDeliver 9 1 7 (StLocked 5 5 true []);
+  [ EPwSend 9 1 7 [7] true false 0 0 []; EPwDeliver 9 1 [7] (PwOk 5 0);
+    ECtsSend 9 1 7 0 0 false false false; ECtsDeliver 9 1 7 (StLocked 5 5 true []);
     ECtsReply 9 1 7 (StLocked 5 5 true []); ERsSend 9 1 5 [] ].
 Theorem resolve_draft_refuted : (exists s, run cex_resolve = Some s) /\ ~ resolve_draft cex_resolve.
 Proof.
   split; [eexists; vm_compute; reflexivity|].
   intros D.
-  specialize (D [ECtsSend 9 1 7 0 0 false false false; ECtsDeliver 9 1 7 (StLocked 5 5 true []);
+  specialize (D [EPwSend 9 1 7 [7] true false 0 0 []; EPwDeliver 9 1 [7] (PwOk 5 0);
+                 ECtsSend 9 1 7 0 0 false false false; ECtsDeliver 9 1 7 (StLocked 5 5 true []);
                  ECtsReply 9 1 7 (StLocked 5 5 true [])] [] 9 1 5 [] eq_refl).
   cbn [In] in D.
   destruct D as [(_ & p & D) | [(D & _) | (ks & st & D)]]; try discriminate;
